@@ -18,16 +18,41 @@ ENV_OPS = {"Arrive", "Disconnect", "CloseListener", "StopBegin", "ThAdd", "ThRef
 FAIL_OUT = {"lost", "rejected", "dropsub", "dropshut", "droppeer"}
 
 
+# ------------------------------------------------------------------ implementation-shaped switches
+
+SWITCHES = {"DevCapCheckThenAct": "C18-inbound-cap-check-then-act", "DevSweepOnce": "C18-close-blocked-by-unswept-peer"}
+
+
+def impl_cfg(wd, name):
+    """The cfgs that are bound to the REAL code (edge export for replay, trace validation) carry the model switches
+    of the genuine defects: TRUE while the finding is open (the code is as it is), FALSE once it is recorded as
+    fixed -- then the same replay/trace legs check the code against the intended design."""
+    status = {f["id"]: f.get("status") for f in vlib.load_findings(PROP)}
+    txt = open(os.path.join(vlib.SPEC, "cfg", name)).read()
+    import re
+    for sw, fid in SWITCHES.items():
+        val = "TRUE" if status.get(fid, "open") == "open" else "FALSE"
+        txt = re.sub(r"(%s\s*=\s*)(TRUE|FALSE)" % sw, r"\g<1>" + val, txt)
+    out = os.path.join(wd, name)
+    open(out, "w").write(txt)
+    return out
+
+
 # ------------------------------------------------------------------ Leg M
 
-M_QUICK = [("Limits_rpc_quick.cfg", "RPC pipeline 2 peers x 2 RPCs, caps {1,2}x{0,1,2}"),
-           ("Limits_rpc_live.cfg", "liveness StopReturns/RpcsSettle under fairness"),
-           ("Limits_conn_mc.cfg", "connection lifecycle, caps re-checked at the insert (intended design)"),
-           ("Limits_tg_mc.cfg", "plain thread group")]
-M_THOROUGH = M_QUICK + [("Limits_rpc_mc3x2.cfg", "RPC pipeline 3 peers (two share a subnet) x 2 RPCs"),
-                        ("Limits_rpc_mc2x3.cfg", "RPC pipeline 2 peers x 3 RPCs"),
-                        ("Limits_rpc_disc.cfg", "RPC pipeline with peers hanging up at any moment")]
-M_DEVS = [("Limits_conn_impl.cfg", "PeerCaps"),            # the code as it is: check-then-act
+M_QUICK = [("Limits_rpc_quick.cfg", "RPC pipeline 2 peers x 2 RPCs, maxInflight 1, maxSubnet {off,1,2}"),
+           ("Limits_rpc_live.cfg", "liveness StopReturns/RpcsSettle under fairness, 1 peer x 3 RPCs"),
+           ("Limits_conn_quick.cfg", "connection lifecycle, intended design (cap re-checked at the insert, no insert after the teardown), incl. liveness"),
+           ("Limits_tg_mc.cfg", "plain thread group, incl. liveness")]
+M_THOROUGH = [("Limits_rpc_mc.cfg", "RPC pipeline 2 peers x 2 RPCs, caps {1,2} x {off,1,2}"),
+              ("Limits_rpc_live.cfg", "liveness StopReturns/RpcsSettle under fairness, 1 peer x 3 RPCs"),
+              ("Limits_rpc_live2x2.cfg", "liveness StopReturns/RpcsSettle under fairness, 2 peers x 2 RPCs"),
+              ("Limits_conn_mc.cfg", "connection lifecycle 3 in + 2 out, intended design, incl. liveness"),
+              ("Limits_tg_mc.cfg", "plain thread group, incl. liveness"),
+              ("Limits_rpc_disc.cfg", "RPC pipeline with peers hanging up at any moment"),
+              ("Limits_rpc_mc3x2.cfg", "RPC pipeline 3 peers (two share a subnet) x 2 RPCs"),
+              ("Limits_rpc_mc2x3.cfg", "RPC pipeline 2 peers x 3 RPCs")]
+M_DEVS = [("Limits_conn_cap.cfg", "PeerCaps"),             # the code as it is: check-then-act
           ("Limits_rpc_dev_leak.cfg", "NoSlotLeak"),
           ("Limits_rpc_dev_drop.cfg", "BackPressureNotDrop"),
           ("Limits_tg_dev.cfg", None)]
@@ -216,7 +241,7 @@ def tlc_counterexample_ops(out):
 
 
 def leg_r_conn(wd, tier, binary, verdict):
-    r = vlib.run_tlc(wd, "MCLimits", "Limits_conn_edges.cfg", workers=1, timeout=900)
+    r = vlib.run_tlc(wd, "MCLimits", impl_cfg(wd, "Limits_conn_edges.cfg"), workers=1, timeout=900, tag="MCLimits_Limits_conn_edges")
     vlib.tlc_must_pass(r, "Limits CONN edge export")
     states, inits, macro = macro_graph(r.edges)
     rng = random.Random(vlib.seed() + 1)
@@ -237,7 +262,10 @@ def leg_r_conn(wd, tier, binary, verdict):
     cxlim = None
     import re
     m = re.search(r"maxIn \|-> (-?\d+)", cx.out)
-    if cx.violated == "PeerCaps" and ops and m:
+    cap_open = any(f["id"] == SWITCHES["DevCapCheckThenAct"] and f.get("status") == "open" for f in vlib.load_findings(PROP))
+    if not cap_open:
+        log("  R/conn: %s is recorded as fixed: replaying the intended design (cap re-checked at the insert)" % SWITCHES["DevCapCheckThenAct"])
+    elif cx.violated == "PeerCaps" and ops and m:
         cxlim = int(m.group(1))
         path = walk_macro(macro, lambda l: l["maxIn"] == cxlim, ops)
         for g in groups:
@@ -287,20 +315,268 @@ def leg_r_tg(wd, tier, binary, verdict, targets=None):
                 steps=res["evaluations"], distinct=res["distinct"], samples=res["samples"], tlc=r)
 
 
+# ------------------------------------------------------------------ Leg T
+
+def split_traces(path):
+    cur = []; start = 0
+    with open(path) as f:
+        for i, line in enumerate(f):
+            if line.startswith('{"op":"Reset"') and cur:
+                yield start, cur
+                cur = []; start = i
+            cur.append(line)
+    if cur:
+        yield start, cur
+
+
+def validate_file(wd, path, cfg, tag, verdict, max_iter=14):
+    """TLC-validates one NDJSON file; a rejected run is reported, dropped, and the rest re-validated"""
+    events = vlib.count_lines(path)
+    if events == 0:
+        return 0, 0, 0, 0
+    rejected = 0; states = 0; ntr = len(list(split_traces(path)))
+    for it in range(max_iter):
+        if vlib.count_lines(path) == 0:
+            break
+        ok, r, consumed = vlib.validate_trace(wd, "LimitsTrace", impl_cfg(wd, cfg), path, timeout=900, tag="%s_%d" % (tag, it))
+        states += r.distinct
+        if ok:
+            break
+        if consumed is None:
+            raise vlib.Infra("trace validation broke (no high-water mark): %s\n%s" % (r.error, r.out[-2000:]))
+        traces = list(split_traces(path))
+        bad = None
+        for start, lines in traces:
+            if start <= min(consumed, events - 1) < start + len(lines) or (consumed == start + len(lines) and bad is None and r.violated):
+                bad = (start, lines)
+        if bad is None:
+            bad = traces[-1]
+        start, lines = bad
+        k = min(max(consumed - start, 0), len(lines) - 1)
+        ev = json.loads(lines[k]); hdr = json.loads(lines[0])
+        rejected += 1
+        fam = hdr.get("fam")
+        if r.violated:
+            sig = "trace:%s:%s" % (fam, r.violated)
+            desc = "recorded %s run %s: TLC finds invariant/property %s violated on a behaviour that explains the first %d lines" % (fam, hdr.get("tag"), r.violated, k + 1)
+        else:
+            sig = "trace:%s:%s:unexplained" % (fam, ev.get("op"))
+            desc = "recorded %s run %s: no behaviour of Limits explains line %d: %s" % (fam, hdr.get("tag"), k, json.dumps(ev))
+        verdict.add({"sig": sig, "desc": desc,
+                     "replay": {"kind": "trace", "fam": fam, "lim": hdr.get("lim"), "events": [json.loads(x) for x in lines[:k + 1]]}})
+        with open(path, "w") as f:
+            for s2, l2 in traces:
+                if s2 != start:
+                    f.writelines(l2)
+        events = vlib.count_lines(path)
+    else:
+        log("  T: more than %d rejected runs in %s; the rest is not validated" % (max_iter, tag))
+    return events, rejected, states, ntr
+
+
+def leg_t(wd, tier, binary, verdict, race_binary=None):
+    env = {"VERIF_RPC_RUNS": 36 if tier == "quick" else 400, "VERIF_CONN_RUNS": 12 if tier == "quick" else 60,
+           "VERIF_TG_RUNS": 24 if tier == "quick" else 200, "VERIF_WALLET_RUNS": 3 if tier == "quick" else 9,
+           "VERIF_SHARDS": 6 if tier == "quick" else 12, "VERIF_PARALLEL": 6}
+    res = vlib.go_run(binary, "TestDriver", wd, env=env, timeout=1500)
+    if res["counts"].get("infra"):
+        raise vlib.Infra("driver could not set up %d runs: %s" % (res["counts"]["infra"], res.get("notes")))
+    verdict.add_all(res["mismatches"])
+    files = sorted(f for f in os.listdir(wd) if f.startswith("limtrace-") and f.endswith(".ndjson"))
+    t0 = time.time()
+    tot_ev = tot_rej = tot_states = tot_tr = 0
+    with cf.ThreadPoolExecutor(max_workers=8) as ex:
+        futs = []
+        for f in files:
+            cfg = "LimitsTrace_tg.cfg" if "-tg-" in f else "LimitsTrace_run.cfg"
+            futs.append(ex.submit(validate_file, wd, os.path.join(wd, f), cfg, f.replace(".ndjson", ""), verdict))
+        for fu in futs:
+            ev, rej, st, ntr = fu.result()
+            tot_ev += ev; tot_rej += rej; tot_states += st; tot_tr += ntr
+    log("  T: %d recorded runs (%d RPCs sent, %d handlers gated, %d answered, %d refused/dropped) / %d events; TLC validated in %.1fs, %d runs rejected, %d driver-level mismatches"
+        % (res["traces"], res["counts"].get("rpcs", 0), res["counts"].get("handlers", 0), res["counts"].get("answered", 0),
+           res["counts"].get("failed", 0), res["counts"].get("events", 0), time.time() - t0, tot_rej, len(res["mismatches"])))
+    out = dict(traces=res["traces"], events=res["counts"].get("events", 0), rejected=tot_rej, trace_states=tot_states,
+               rpcs=res["counts"].get("rpcs", 0), handlers=res["counts"].get("handlers", 0), samples=res["samples"],
+               distinct=res["distinct"], close_stuck_runs=res["counts"].get("close_stuck_runs", 0))
+    for f in files:
+        try:
+            os.remove(os.path.join(wd, f))
+        except OSError:
+            pass
+    # the cap race as probed (12 peers at once against a cap of 2) and the outbound cap
+    st = vlib.go_run(binary, "TestCapStorm", wd, timeout=600)
+    verdict.add_all(st["mismatches"])
+    log("  T: 12 simultaneous inbound connections, WithMaxInboundPeers(2): %d admitted (staged), %d admitted (free-running)"
+        % (st["counts"].get("storm_staged_inbound", 0), st["counts"].get("storm_free_inbound", 0)))
+    ob = vlib.go_run(binary, "TestOutbound", wd, env={"VERIF_OUT_ROUNDS": 3 if tier == "quick" else 10}, timeout=600)
+    if ob["counts"].get("outbound_vacuous"):
+        log("  T: outbound cap never reached in %d rounds (vacuous rounds)" % ob["counts"]["outbound_vacuous"])
+    verdict.add_all(ob["mismatches"])
+    log("  T: outbound cap under 8 candidates, peerLoop every 15 ms, hang-ups: %d rounds, %d mismatches" % (ob["evaluations"], len(ob["mismatches"])))
+    out["storm"] = {k: v for k, v in st["counts"].items()}
+    out["outbound_rounds"] = ob["evaluations"]
+    out["samples"] = out["samples"] + st["samples"]
+    if race_binary:
+        rres = vlib.go_run(race_binary, "TestDriver", wd, env=dict(env, VERIF_RPC_RUNS=60, VERIF_CONN_RUNS=20, VERIF_TG_RUNS=40, VERIF_WALLET_RUNS=0), timeout=1500, tag="TestDriverRace")
+        races = open(rres["log"], errors="replace").read().count("WARNING: DATA RACE")
+        verdict.add_all(rres["mismatches"])
+        if races:
+            verdict.add({"sig": "race:data-race", "desc": "%d data races reported by the race detector, see %s" % (races, rres["log"]), "replay": None})
+        log("  T: race-detector build: %d runs, %d data races, %d mismatches" % (rres["traces"], races, len(rres["mismatches"])))
+        out["race_runs"] = rres["traces"]
+        for f in os.listdir(wd):
+            if f.startswith("limtrace-") and f.endswith(".ndjson"):
+                os.remove(os.path.join(wd, f))
+    return out
+
+
 def run(tier):
     t0 = time.time()
     wd = vlib.workdir(PROP)
     verdict = vlib.Verdict(PROP)
     binary = vlib.go_build(PKG, wd)
-    ms = leg_m(wd, tier)
-    rr = leg_r_rpc(wd, tier, binary, verdict)
+    race_binary = vlib.go_build(PKG, wd, race=True) if tier == "thorough" else None
+    # the legs are independent: run them side by side (TLC for M, Go + TLC for R and T)
+    with cf.ThreadPoolExecutor(max_workers=5) as ex:
+        fm = ex.submit(leg_m, wd, tier)
+        frr = ex.submit(leg_r_rpc, wd, tier, binary, verdict)
+        frc = ex.submit(leg_r_conn, wd, tier, binary, verdict)
+        frt = ex.submit(leg_r_tg, wd, tier, binary, verdict)
+        ft = ex.submit(leg_t, wd, tier, binary, verdict, race_binary)
+        ms, rr, rc_, rt, tt = fm.result(), frr.result(), frc.result(), frt.result(), ft.result()
     rc = verdict.finish()
+    rs = [rr, rc_, rt]
+    cov = {
+        "states": sum(m.distinct for m in ms) + sum(x["tlc"].distinct for x in rs) + tt["trace_states"],
+        "transitions": sum(m.generated for m in ms) + sum(x["tlc"].generated for x in rs),
+        "traces_validated_against_impl": tt["traces"] - tt["rejected"] + sum(x["paths"] for x in rs),
+        "exhaustive": True,
+        "samples": vlib.trim_samples(rr["samples"][:1] + rc_["samples"][:1] + tt["samples"], 4),
+        "model": {"runs": [{"cfg": m.cmd.split("-config ")[1].split()[0].split("/")[-1], "distinct": m.distinct, "generated": m.generated, "depth": m.depth} for m in ms],
+                  "constants": "RPC family: 2 peers sharing a subnet x 2 RPCs, caps maxInflight x maxSubnet as listed per cfg (thorough adds 3x2, 2x3, hang-ups); "
+                               "CONN family: 3 inbound + 1-2 outbound attempts, caps {0,1,2}; TG family: 4 threads; Close/Stop at every moment; complete reachable state spaces",
+                  "deviations_shown_to_fail": ["DevCapCheckThenAct -> PeerCaps", "DevSweepOnce -> StopReturns (selftest/thorough)"]},
+        "replay": {"rpc": {k: rr[k] for k in ("states", "edges", "macro", "paths", "cover_paths", "steps")},
+                   "conn": {k: rc_[k] for k in ("states", "edges", "macro", "paths", "cover_paths", "steps", "cap_exceeded")},
+                   "tg": {k: rt[k] for k in ("states", "edges", "macro", "paths", "cover_paths", "steps")}},
+        "trace_validation": {k: tt[k] for k in ("traces", "events", "rejected", "trace_states", "rpcs", "handlers", "storm", "outbound_rounds", "close_stuck_runs")},
+        "evaluations": sum(x["steps"] for x in rs) + tt["events"],
+        "distinct_nontrivial": sum(x["distinct"] for x in rs) + tt["distinct"],
+        "rule": "R: one evaluation per macro step (one environment/gate step + the internal steps up to the next settled state) executed on the real "
+                "syncer / ThreadGroup / rhp4.Server, distinct by (limits, action, expected settled observation); T: one evaluation per recorded event, "
+                "distinct by recorded run configuration; every event of every run is consumed by TLC (LimitsTrace.tla)",
+        "known_findings_seen": dict(verdict.known),
+    }
+    vlib.write_evidence(PROP, tier, "model_checking", cov,
+                        ["handlers are gated inside ChainManager.BlocksForHistory (RPC SendV2Blocks); other RPC types share the same runPeer path and are not driven",
+                         "peers are raw gateway clients on loopback 127.0.x.y; subnets are /32 loopback addresses",
+                         "settled-state replay: after each environment step the real system is given up to 10 s to reach the specification's settled state and must stay there for 12 ms",
+                         "Syncer.Close is replayed as its two statements (listener close, ThreadGroup.Stop) so that schedules between them can be staged",
+                         "explicit Syncer.Connect is not subject to the outbound cap (only peerLoop is); outbound cap checked by sampling, not stepped",
+                         "TLC, the Go runtime/scheduler, go.sia.tech/mux and the loopback TCP stack are trusted"],
+                        time.time() - t0, len(verdict.violations))
     return rc
 
 
 def replay(path):
+    wd = vlib.workdir(PROP + "-replay")
+    binary = vlib.go_build(PKG, wd)
+    mm = json.load(open(path))
+    verdict = vlib.Verdict(PROP)
+    kind = (mm.get("replay") or {}).get("kind")
+    if kind in ("rpc-path", "conn-path", "tg-path", "storm"):
+        res = vlib.go_run(binary, "TestReplayOne", wd, env={"VERIF_IN": path})
+        verdict.add_all(res["mismatches"])
+        log("replayed %s: %d mismatches" % (kind, len(res["mismatches"])))
+        return verdict.finish()
+    if kind == "trace":
+        # re-validate the recorded prefix with TLC
+        p = os.path.join(wd, "replay.ndjson")
+        with open(p, "w") as f:
+            for e in mm["replay"]["events"]:
+                f.write(json.dumps(e, separators=(",", ":")) + "\n")
+        cfg = "LimitsTrace_tg.cfg" if mm["replay"].get("fam") == "tg" else "LimitsTrace_run.cfg"
+        ev, rej, st, ntr = validate_file(wd, p, cfg, "replay", verdict)
+        log("re-validated the recorded run: %d rejected" % rej)
+        return verdict.finish()
+    log("this record is re-run by the driver with the same VERIF_SEED: ./check C18")
     return 2
 
 
 def selftest():
-    return 2
+    """Demonstrates the binding.  (1) replay against a wrong oracle / wrong stub must find mismatches; (2) recorded runs
+    with one corrupted line must be rejected by TLC; (3) every named deviation must break its property in TLC."""
+    wd = vlib.workdir(PROP + "-selftest")
+    binary = vlib.go_build(PKG, wd)
+    ok = True
+    # 1a: the real syncer is configured with one more per-peer slot than the oracle assumes
+    v = vlib.Verdict(PROP + "-selftest"); v.findings = []
+    leg_r_rpc(wd, "quick", binary, v, mutate="oracle-cap")
+    ok1 = any("extra-handler" in m["sig"] or "missing-handler" in m["sig"] for m in v.violations)
+    log("selftest 1a (syncer configured with another limit than the oracle: replay diverges): %s" % ("ok" if ok1 else "FAILED"))
+    # 1b: a thread group that admits members after Stop
+    v = vlib.Verdict(PROP + "-selftest"); v.findings = []
+    leg_r_tg(wd, "quick", binary, v, targets=["stub-lateadd"])
+    ok1b = any("joined-after-stop" in m["sig"] or ":state" in m["sig"] for m in v.violations)
+    log("selftest 1b (stub thread group that never refuses: replay diverges): %s" % ("ok" if ok1b else "FAILED"))
+    # 2: corrupt recorded runs
+    res = vlib.go_run(binary, "TestDriver", wd, env={"VERIF_RPC_RUNS": 12, "VERIF_CONN_RUNS": 0, "VERIF_TG_RUNS": 6, "VERIF_WALLET_RUNS": 1, "VERIF_SHARDS": 1, "VERIF_PARALLEL": 4})
+    runp = os.path.join(wd, "limtrace-run-0.ndjson"); tgp = os.path.join(wd, "limtrace-tg-0.ndjson")
+    good = [list(l) for _, l in split_traces(runp)]
+
+    def check(name, lines, cfg, expect_reject=True):
+        p = os.path.join(wd, "corrupt-%s.ndjson" % name)
+        open(p, "w").write("".join(lines))
+        vv = vlib.Verdict(PROP + "-selftest"); vv.findings = []
+        _, rej, _, _ = validate_file(wd, p, cfg, "corrupt_" + name, vv)
+        good_ = (rej >= 1) == expect_reject
+        log("selftest 2 (%s): %s%s" % (name, "ok" if good_ else "FAILED", "" if not vv.violations else "  [" + vv.violations[0]["sig"] + "]"))
+        return good_
+    # a run with an Exit: delete it -> the handler count of that peer/subnet can only grow; with a later Enter it exceeds a cap
+    # or Close returns with a handler inside (StopWaits)
+    done = set()
+    for tr in good:
+        evs = [json.loads(x) for x in tr]
+        ops = [e["op"] for e in evs]
+        if "dropexit" not in done and "Exit" in ops and "StopReturn" in ops and ops.index("Exit") < ops.index("StopReturn"):
+            i = ops.index("Exit")
+            ok &= check("Exit line removed (Close returns with a handler inside)", tr[:i] + tr[i + 1:], "LimitsTrace_run.cfg"); done.add("dropexit")
+        if "lateenter" not in done and "StopReturn" in ops and "Enter" in ops:
+            i = ops.index("StopReturn"); j = ops.index("Enter")
+            e = dict(evs[j]); e["r"] = 8
+            a = dict(e); a["op"] = "Arrive"
+            # an RPC that arrives and ENTERS a handler after Close returned
+            lines = tr[:i + 1] + [json.dumps(dict(a, r=max(x["r"] for x in evs if x["op"] == "Arrive" and x["p"] == e["p"]) + 1), separators=(",", ":")) + "\n"]
+            rr_ = json.loads(lines[-1])["r"]
+            lines.append(json.dumps(dict(e, r=rr_), separators=(",", ":")) + "\n")
+            if rr_ <= 8:
+                ok &= check("handler entered after Close returned", lines, "LimitsTrace_run.cfg"); done.add("lateenter")
+        if "quiesce" not in done and "Quiesce" in ops:
+            i = ops.index("Quiesce"); e = dict(evs[i]); e["n"] = 1
+            ok &= check("counter not back to zero at a quiescent point", tr[:i] + [json.dumps(e, separators=(",", ":")) + "\n"] + tr[i + 1:], "LimitsTrace_run.cfg"); done.add("quiesce")
+        if "failed" not in done and "Answered" in ops and ops.index("Answered") < (ops.index("StopCall") if "StopCall" in ops else 10**9) \
+                and "Disconnect" not in ops and json.loads(tr[0])["lim"]["maxSubnet"] <= 0:
+            i = ops.index("Answered"); e = dict(evs[i]); e["op"] = "Failed"
+            ok &= check("RPC dropped although the subnet limit is off and nothing shuts down", tr[:i] + [json.dumps(e, separators=(",", ":")) + "\n"] + tr[i + 1:], "LimitsTrace_run.cfg"); done.add("failed")
+    for need in ("dropexit", "lateenter", "quiesce", "failed"):
+        if need not in done:
+            log("selftest 2: no recorded run suitable for corruption '%s' (try another VERIF_SEED)" % need); ok = False
+    # accepted as recorded?
+    ok &= check("unmodified runs are accepted", ["".join(t) for t in good], "LimitsTrace_run.cfg", expect_reject=False)
+    tg = [list(l) for _, l in split_traces(tgp)]
+    for tr in tg:
+        evs = [json.loads(x) for x in tr]; ops = [e["op"] for e in evs]
+        if "ThDone" in ops and "StopReturn" in ops and ops.index("ThDone") < ops.index("StopReturn") and any(e["op"] == "ThAdd" and e["ok"] for e in evs):
+            # move StopReturn before the first ThDone of a live member
+            i = ops.index("StopReturn"); j = ops.index("ThDone")
+            lines = tr[:j] + [tr[i]] + tr[j:i] + tr[i + 1:]
+            if "StopCall" in ops and ops.index("StopCall") < j:
+                ok &= check("Stop returned while a member was live", lines, "LimitsTrace_tg.cfg"); break
+    # 3: named deviations
+    for cfg, want in M_DEVS + [("Limits_conn_sweep.cfg", "temporal")]:
+        x = vlib.run_tlc(wd, "MCLimits", cfg, workers=4, timeout=600)
+        good_ = x.exit != 0 and x.violated is not None and (want is None or x.violated == want)
+        log("selftest 3 (%s: deviation breaks %s in TLC): %s" % (cfg, x.violated, "ok" if good_ else "FAILED"))
+        ok &= good_
+    return 0 if ok and ok1 and ok1b else 2
